@@ -2,10 +2,12 @@ module go.uber.org/cff/verifh
 
 go 1.19
 
-require go.uber.org/cff v0.0.0
+require (
+	go.uber.org/cff v0.0.0
+	go.uber.org/multierr v1.11.0
+)
 
 require (
-	go.uber.org/multierr v1.11.0 // indirect
 	golang.org/x/mod v0.17.0 // indirect
 	golang.org/x/sync v0.7.0 // indirect
 	golang.org/x/tools v0.20.0 // indirect
